@@ -200,8 +200,9 @@ def roundtrip(ctx):
             # quotient falls one ulp short of the whole number), with a generator dense enough to emit on the last tick — the trace must be as
             # long as the run
             dur, tps = [(1, 123), (3, 75), (1, 1230), (7, 75)][(it + ctx.seed) % 4]
-            params.update({"ticks_per_second": tps, "duration": dur, "waiting_seconds_mean": 1.5 / tps, "num_pipelines": 2})
-            ctx.sit("gentrace_roundtrip_dense_to_the_last_tick")
+            # the second of them with a mean wait below one tick (the generator then emits on every tick; the trace must too)
+            params.update({"ticks_per_second": tps, "duration": dur, "waiting_seconds_mean": (1.5 if it == 0 else 0.4) / tps, "num_pipelines": 2})
+            ctx.sit("gentrace_roundtrip_dense_to_the_last_tick" if it == 0 else "gentrace_roundtrip_mean_wait_below_one_tick")
         with tempfile.TemporaryDirectory() as td:
             pf = os.path.join(td, "p.toml")
             with open(pf, "w") as f:
